@@ -88,9 +88,10 @@ def run(tier):
         if any(x is None for x in a):
             raise MachineryError(f"pristine call {k} failed: {[r[k].get('error') for r in refs]}")
         if any(x["exc"] for x in a):
-            if k.endswith("|1"):
-                continue          # the edited argument is not accepted by this API in a fresh interpreter either: compared as-is
-            raise MachineryError(f"pristine call {k} raises: {a[0]['exc']}")
+            # some argument values (a float qubit count, an edited stabilizer) are rejected by a fresh interpreter: then the same exception type is the pure answer
+            if len({x["exc"].split(":")[0] for x in a}) != 1:
+                ck.violation(f"hashseed {k}", f"{k}: fresh interpreters with different PYTHONHASHSEED disagree on raising: {[x['exc'] for x in a]}", {"call": k})
+            continue
         if not (a[0]["result"] == a[1]["result"] == a[2]["result"]):
             ck.violation(f"hashseed {k}", f"{k}: fresh interpreters with different PYTHONHASHSEED return different results", {"call": k})
     ref = {k: v["ok"] for k, v in refs[0].items()}
